@@ -867,6 +867,17 @@ func (V *Verifier) verifyFunctionOnce(fn *ssa.Function, lockMode bool) *FnResult
 		}
 	}
 	if c != nil {
+		// instantiate <expr>: additional terms (evaluated at entry) for the quantified assumptions of this function
+		ienv := ex.frameEnv(f, entry, entry)
+		for _, ic := range c.Insts {
+			if v, err := ienv.trans(ic.Expr); err == nil {
+				ex.addCand(candClass(v.t.Sort, v.typ), v.t)
+			} else {
+				ex.oblige(f, entry, "requires", "entry:instantiate:does-not-attach", "", fn.Pos(), tFalse, "the contract no longer attaches to the code ("+err.Error()+"): instantiate "+ic.Text)
+			}
+		}
+	}
+	if c != nil {
 		env := ex.frameEnv(f, entry, entry)
 		ex.inRequires = true
 		for _, group := range [][]Clause{c.Requires, c.Entry} {
